@@ -26,12 +26,14 @@ COMPILER_REPLAYS = {
     "u_closenv": ["replay/c08/run.sh"],
     "u_liftty": ["replay/c08/nested_tuple.sh"],
     "u_tastlit": ["replay/c10/run.sh"],
+    "u_binop": ["replay/c09/short_circuit.sh"],
     "u_dcefx": ["replay/c10/dead_division.sh"],
     "u_strlit": ["replay/c11/run.sh"],
     "u_dynvis": ["replay/c17/run.sh"],
     "u_dceblk": ["replay/c09/run.sh"],
-    "u_rows": ["replay/c06/run.sh", "replay/c06/struct_fields.sh"],
+    "u_rows": ["replay/c06/run.sh", "replay/c06/struct_fields.sh", "replay/c06/string_no_default.sh"],
     "u_loadpkg": ["replay/c16/run.sh"],
+    "u_orphan": ["replay/c16/dup_impl.sh"],
 }
 
 
